@@ -129,6 +129,12 @@ def handleSpecial (stream : String) (args : List String) : String :=
   | "sdpparse", _ => "noncompared"
   | "sdpset", _ => "noncompared"
   | "dtlslive", _ => "noncompared"
+  | "udptlbuf", ms :: e0 :: ops =>
+    match ms.toNat?, e0.toNat?, ops.mapM (fun t => match fields t with | [a, b] => do some (← a.toNat?, ← b.toNat?) | _ => none) with
+    | some ms, some e0, some ops =>
+      showRes (Media.deliverRun { expected := e0, maxSize := ms } ops (Buf.ofList []) 0)
+        (fun r => " ".intercalate (r.map nats))
+    | _, _, _ => "bad-args"
   | "rtx", [hx] =>
     match unhex hx with
     | some bs => showRes (runS Ice.unwrapRtx bs) (fun r => match r with | none => "none" | some (o, l) => s!"{o} {l}")
